@@ -75,6 +75,7 @@ func (h *c08Hist) record(client int, in c08In, call int64, out c08Out) {
 type c08State struct {
 	keys   string // sorted, comma separated
 	closed bool
+	ro     bool // FinalizeReadOnly: writes refused, reads keep working
 }
 
 func c08KeyOf(name string, whole bool) string {
@@ -119,7 +120,7 @@ func c08PorcupineModel(whole bool) porcupine.Model {
 			out := output.(c08Out)
 			switch in.Op {
 			case "put", "putmany":
-				if s.closed {
+				if s.closed || s.ro {
 					return out.Err, s
 				}
 				if out.Err {
@@ -147,6 +148,17 @@ func c08PorcupineModel(whole bool) porcupine.Model {
 					return !out.Err && out.Data == string(b.Data), s
 				}
 				return !out.Err && out.Size == len(b.Data), s
+			case "roots":
+				if s.closed {
+					return out.Err, s
+				}
+				return !out.Err && out.Size == 1, s
+			case "finalize-ro":
+				if s.closed || s.ro {
+					return true, s // result of a repeated lifecycle call is not specified
+				}
+				s.ro = true
+				return !out.Err, s
 			case "finalize", "discard", "close":
 				if s.closed {
 					return true, s // duplicate lifecycle calls: result not specified
@@ -194,6 +206,7 @@ type c08Store interface {
 	Size(c cid.Cid) (int, error)
 	Keys(ctx context.Context) (<-chan cid.Cid, error)
 	Life(op string) error
+	Roots() (int, error)
 }
 
 func (e *c08Env) opPut(st c08Store, client int, name string) {
@@ -224,6 +237,11 @@ func (e *c08Env) opSize(st c08Store, client int, name string) {
 	call := vsync.Now()
 	n, err := st.Size(kit.B(name).Cid)
 	e.hist.record(client, c08In{"size", []string{name}}, call, c08Out{Err: err != nil, Found: err == nil, Size: n})
+}
+func (e *c08Env) opRoots(st c08Store, client int) {
+	call := vsync.Now()
+	n, err := st.Roots()
+	e.hist.record(client, c08In{"roots", nil}, call, c08Out{Err: err != nil, Size: n})
 }
 func (e *c08Env) opLife(st c08Store, client int, op string) {
 	call := vsync.Now()
@@ -306,8 +324,14 @@ func (s c08BS) Size(c cid.Cid) (int, error) { return s.bs.GetSize(drv.Ctx, c) }
 func (s c08BS) Keys(ctx context.Context) (<-chan cid.Cid, error) {
 	return s.bs.AllKeysChan(ctx)
 }
+func (s c08BS) Roots() (int, error) {
+	r, err := s.bs.Roots()
+	return len(r), err
+}
 func (s c08BS) Life(op string) error {
 	switch op {
+	case "finalize-ro":
+		return s.bs.FinalizeReadOnly()
 	case "finalize":
 		return s.bs.Finalize()
 	case "discard":
@@ -330,6 +354,7 @@ func (s c08ST) Size(c cid.Cid) (int, error) {
 	return len(d), err
 }
 func (s c08ST) Keys(ctx context.Context) (<-chan cid.Cid, error) { panic("no listing on storage") }
+func (s c08ST) Roots() (int, error)                              { return len(s.st.Roots()), nil }
 func (s c08ST) Life(op string) error {
 	if op == "finalize" {
 		return s.st.Finalize()
@@ -347,6 +372,7 @@ func (s c08DW) Size(c cid.Cid) (int, error)   { panic("no Size") }
 func (s c08DW) Keys(ctx context.Context) (<-chan cid.Cid, error) {
 	panic("no listing")
 }
+func (s c08DW) Roots() (int, error) { panic("no roots") }
 func (s c08DW) Life(op string) error {
 	if op == "close" {
 		return s.dw.Close()
@@ -369,6 +395,10 @@ func (s c08RO) Get(c cid.Cid) ([]byte, error) {
 func (s c08RO) Size(c cid.Cid) (int, error) { return s.bs.GetSize(drv.Ctx, c) }
 func (s c08RO) Keys(ctx context.Context) (<-chan cid.Cid, error) {
 	return s.bs.AllKeysChan(ctx)
+}
+func (s c08RO) Roots() (int, error) {
+	r, err := s.bs.Roots()
+	return len(r), err
 }
 func (s c08RO) Life(op string) error {
 	if op == "close" {
@@ -396,7 +426,17 @@ func c08NewBS(dir string, o drv.Opts) (*c08Env, c08Store) {
 	}
 	e.final = func() ([]byte, error) {
 		if !closedByScenario() {
-			if err := bs.Finalize(); err != nil {
+			ro := false
+			for _, op := range e.hist.ops {
+				if op.Input.(c08In).Op == "finalize-ro" {
+					ro = true
+				}
+			}
+			if ro {
+				if err := bs.Close(); err != nil {
+					return nil, err
+				}
+			} else if err := bs.Finalize(); err != nil {
 				return nil, err
 			}
 		}
@@ -591,6 +631,38 @@ var c08Scenarios = []c08Scenario{
 			func() { e.opPut(st, 1, "b"); e.opHas(st, 1, "a") },
 			func() { e.opLife(st, 2, "finalize") },
 			func() { e.opGet(st, 3, "b") },
+		}
+		return e
+	}},
+	{"S13", "bs: PutMany[a,b] || PutMany[b,c] || Has b; Get c", func(dir string, o drv.Opts) *c08Env {
+		e, st := c08NewBS(dir, o)
+		e.names = []string{"T0", "T1", "T2"}
+		e.bodies = []func(){
+			func() { e.opPutMany(st, 0, "a", "b") },
+			func() { e.opPutMany(st, 1, "b", "c") },
+			func() { e.opHas(st, 2, "b"); e.opGet(st, 2, "c") },
+		}
+		return e
+	}},
+	{"S14", "bs: FinalizeReadOnly || Put a || Get b; Has a (b stored before)", func(dir string, o drv.Opts) *c08Env {
+		e, st := c08NewBS(dir, o)
+		st.Put(kit.B("b"))
+		e.hist.putRet = map[string]int64{"b": 0}
+		e.names = []string{"T0", "T1", "T2"}
+		e.bodies = []func(){
+			func() { e.opLife(st, 0, "finalize-ro") },
+			func() { e.opPut(st, 1, "a") },
+			func() { e.opGet(st, 2, "b"); e.opHas(st, 2, "a") },
+		}
+		return e
+	}},
+	{"S15", "bs: Roots; GetSize a || Put a || Finalize", func(dir string, o drv.Opts) *c08Env {
+		e, st := c08NewBS(dir, o)
+		e.names = []string{"T0", "T1", "T2"}
+		e.bodies = []func(){
+			func() { e.opRoots(st, 0); e.opSize(st, 0, "a") },
+			func() { e.opPut(st, 1, "a") },
+			func() { e.opLife(st, 2, "finalize") },
 		}
 		return e
 	}},
